@@ -20,17 +20,17 @@ import (
 // World is one server instance on a recording disk together with the reference
 // model and the handle variables.  All methods must run inside vrt.Run.
 type World struct {
-	Disk     *vdisk.Disk
-	Srv      *nfs.Nfs
-	Vars     *fsx.Vars
-	Model    *reffs.FS
-	Unstable bool
-	Probe    *fsx.Probe
-	NOps     int
-	Mark     bool // emit inv/ack markers into the disk trace
-	Pending  bool // unstable data not yet flushed
+	Disk           *vdisk.Disk
+	Srv            *nfs.Nfs
+	Vars           *fsx.Vars
+	Model          *reffs.FS
+	Unstable       bool
+	Probe          *fsx.Probe
+	NOps           int
+	Mark           bool   // emit inv/ack markers into the disk trace
+	Pending        bool   // unstable data not yet flushed
 	FreshB, FreshI uint64 // free counts of the freshly formatted file system
-	ViaXDR bool // requests go through XDR encoding and the registration table (C02 transport search)
+	ViaXDR         bool   // requests go through XDR encoding and the registration table (C02 transport search)
 }
 
 // api is what requests are sent to: the server itself or the XDR proxy in front of it.
